@@ -1,6 +1,7 @@
 package props
 
 import (
+	"io"
 	"bytes"
 	"fmt"
 	"sync"
@@ -57,6 +58,34 @@ type L2Cfg struct {
 	// Pre (configuration history): a Writer2Config variable is filled with Pre and verified, then
 	// every field is set to this configuration's values and the writer is created from that variable
 	Pre *L2Cfg `json:",omitempty"`
+	// Scribble: right after the constructor has returned, the caller overwrites every field of its
+	// configuration variable, including the Properties value behind the pointer, and creates and
+	// uses a second, unrelated writer from it (a caller that reuses one configuration variable)
+	Scribble bool `json:",omitempty"`
+}
+
+// open creates the writer the way the case's configuration history prescribes.
+func (c L2Cfg) open(sink io.Writer) (*lzma.Writer2, error) {
+	cfg := c.build()
+	w, err := cfg.NewWriter2(sink)
+	if c.Scribble {
+		if cfg.Properties != nil {
+			if *cfg.Properties == (lzma.Properties{}) {
+				*cfg.Properties = lzma.Properties{LC: 1, LP: 1, PB: 1}
+			} else {
+				*cfg.Properties = lzma.Properties{}
+			}
+		} else {
+			cfg.Properties = &lzma.Properties{LC: 0, LP: 2, PB: 0}
+		}
+		cfg.DictCap, cfg.BufSize, cfg.Matcher = 5000, 300, 1-cfg.Matcher
+		var other sinkBuf
+		if w2, e2 := cfg.NewWriter2(&other); e2 == nil {
+			w2.Write([]byte("another writer created from the same configuration variable"))
+			w2.Close()
+		}
+	}
+	return w, err
 }
 
 func (c L2Cfg) build() lzma.Writer2Config {
@@ -80,7 +109,7 @@ func (c L2Cfg) cfg() lzma.Writer2Config {
 
 func mustLibLZMA2(cfg L2Cfg, data []byte, steps []L2Step) []byte {
 	var sb sinkBuf
-	w, err := cfg.build().NewWriter2(&sb)
+	w, err := cfg.open(&sb)
 	if err != nil {
 		panic(err)
 	}
@@ -131,6 +160,32 @@ type LZCfg struct {
 	EOS          bool
 	// Pre: configuration history as for L2Cfg (lzma.WriterConfig.Verify fills defaults in place)
 	Pre *LZCfg `json:",omitempty"`
+	// Scribble: as for L2Cfg
+	Scribble bool `json:",omitempty"`
+}
+
+func (c LZCfg) open(sink io.Writer) (*lzma.Writer, error) {
+	cfg := c.build()
+	w, err := cfg.NewWriter(sink)
+	if c.Scribble {
+		if cfg.Properties != nil {
+			if *cfg.Properties == (lzma.Properties{}) {
+				*cfg.Properties = lzma.Properties{LC: 1, LP: 1, PB: 1}
+			} else {
+				*cfg.Properties = lzma.Properties{}
+			}
+		} else {
+			cfg.Properties = &lzma.Properties{LC: 0, LP: 2, PB: 0}
+		}
+		cfg.DictCap, cfg.BufSize, cfg.Matcher = 5000, 300, 1-cfg.Matcher
+		cfg.SizeInHeader, cfg.Size, cfg.EOSMarker = !cfg.SizeInHeader, 59, !cfg.EOSMarker
+		var other sinkBuf
+		if w2, e2 := cfg.NewWriter(&other); e2 == nil {
+			w2.Write([]byte("another writer created from the same configuration variable"))
+			w2.Close()
+		}
+	}
+	return w, err
 }
 
 func (c LZCfg) build() lzma.WriterConfig {
@@ -163,7 +218,7 @@ func (c LZCfg) cfg() lzma.WriterConfig {
 
 func mustLibLZMA(cfg LZCfg, data []byte) []byte {
 	var sb sinkBuf
-	w, err := cfg.build().NewWriter(&sb)
+	w, err := cfg.open(&sb)
 	if err != nil {
 		panic(err)
 	}
